@@ -3401,6 +3401,20 @@ M('C10', 'payload-one-line-per-50-octets', TY, _WRAP, "        data = self.__byt
 M('C10', 'payload-pieces-48-step-64', TY, _WRAP, "        data = self.__bytes__()\n        payload = '\\n'.join(base64.b64encode(data[i:(i + 48)]).decode('latin-1') for i in range(0, len(data), 64))\n", 'C10.2')
 M('C10', 'payload-pieces-of-57-octets-lines-of-76-ok-but-reader-64', TY, _WRAP, "        data = self.__bytes__()\n        payload = '\\n'.join(base64.b64encode(data[i:(i + 60)]).decode('latin-1') for i in range(0, len(data), 60))\n", 'C10.3')
 
+# ---- C10 wave-5 lessons: header lines through a generator helper, CR LF on every body line, assembled patterns, table-driven CRC
+_HDRS = "            headers=''.join('{key}: {val}\\n'.format(key=key, val=val) for key, val in self.ascii_headers.items()),"
+T('C10', 'twin-header-lines-generator-helper', TY, _HDRS, "            headers=''.join(self._armor_header_lines()),",
+  more=[(TY, "    def __str__(self):\n        payload = base64", "    def _armor_header_lines(self):\n        for key, val in self.ascii_headers.items():\n            yield '{key}: {val}\\n'.format(key=key, val=val)\n\n    def __str__(self):\n        payload = base64")])
+M('C10', 'header-value-continued-on-further-lines', TY, _HDRS, "            headers=''.join(self._armor_header_lines()),", 'C10.7',
+  more=[(TY, "    def __str__(self):\n        payload = base64", "    def _armor_header_lines(self):\n        for key, val in self.ascii_headers.items():\n            val = str(val)\n            width = max(76 - len(key) - 2, 1)\n            for i in range(0, max(len(val), 1), width):\n                yield '{key}: {val}\\n'.format(key=key, val=val[i:(i + width)])\n\n    def __str__(self):\n        payload = base64")])
+M('C10', 'header-value-split-at-newlines-inline', TY, _HDRS, "            headers=''.join('{}: {}\\n'.format(key, part) for key, val in self.ascii_headers.items() for part in str(val).split('\\n')),", 'C10.7')
+M('C10', 'body-lines-cr-only-on-last', TY, "(?P<body>([A-Za-z0-9+/]{1,76}={,2}(?:\\r?\\n))+)", "(?P<body>(?:[A-Za-z0-9+/]{1,76}\\n)*[A-Za-z0-9+/]{1,76}={,2}(?:\\r?\\n))", 'C10.3')
+M('C10', 'body-lines-lf-only', TY, "(?P<body>([A-Za-z0-9+/]{1,76}={,2}(?:\\r?\\n))+)", "(?P<body>([A-Za-z0-9+/]{1,76}={,2}\\n)+)", 'C10.3')
+T('C10', 'twin-body-lines-last-line-separate', TY, "(?P<body>([A-Za-z0-9+/]{1,76}={,2}(?:\\r?\\n))+)", "(?P<body>(?:[A-Za-z0-9+/]{1,76}={,2}\\r?\\n)*[A-Za-z0-9+/]{1,76}={,2}(?:\\r?\\n))")
+_TD('C10', 'held-out-C10-ref14-crc-lazy-table', '../../twins/C10-ref14/patch.diff')
+_TD('C10', 'held-out-C07-ref16-crc-class-table', '../../twins/C07-ref16/patch.diff')
+_TD('C10', 'held-out-C10-ref16-assembled-pattern', '../../twins/C10-ref16/patch.diff')
+
 # =============================================================================================== C11
 M('C11', 'escape-two-spaces', PGP, "        return re.subn(r'^-', '- -', text, flags=re.MULTILINE)[0]", "        return re.subn(r'^-', '-  -', text, flags=re.MULTILINE)[0]", 'C11.1')
 M('C11', 'unescape-no-multiline', PGP, "        return re.subn(r'^- ', '', text, flags=re.MULTILINE)[0]", "        return re.subn(r'^- ', '', text)[0]", 'C11.1')
@@ -3618,6 +3632,13 @@ M('C11', 'escape-callable-drops-the-dash', PGP, _ESC, "        return re.subn(r'
 M('C11', 'escape-callable-wrong-prefix', PGP, _ESC, "        return re.subn(r'^-', lambda m: '-' + m.group(0), text, flags=re.MULTILINE)[0]", 'C11.1')
 M('C11', 'hashdata-fast-path-no-crlf', PGP, "            _data += re.subn(br'\\r?\\n', b'\\r\\n', subject)[0]", "            if b'\\r\\n' not in subject:\n                _data += subject\n            else:\n                _data += re.subn(br'\\r?\\n', b'\\r\\n', subject)[0]", 'C11.4')
 T('C11', 'twin-hashdata-fast-path-no-lf', PGP, "            _data += re.subn(br'\\r?\\n', b'\\r\\n', subject)[0]", "            if isinstance(subject, (bytes, bytearray)) and b'\\n' not in subject:\n                _data += subject\n            else:\n                _data += re.subn(br'\\r?\\n', b'\\r\\n', subject)[0]")
+
+# ---- C11 wave-5 lessons: a cleartext message stays uncompressed
+M('C11', 'cleartext-new-honours-compression', PGP, "            msg |= lit\n            msg._compression = compression\n", "            msg |= lit\n\n        msg._compression = compression\n", 'C11.2')
+M('C11', 'cleartext-new-compression-before-split', PGP, "        if charset:\n            msg.charset = charset\n", "        if charset:\n            msg.charset = charset\n\n        if compression is not None:\n            msg._compression = compression\n", 'C11.2')
+T('C11', 'twin-new-compression-only-for-literal-else-branch', PGP, "        if cleartext:\n            msg |= message\n\n        else:", "        if cleartext:\n            msg |= message\n            msg._compression = CompressionAlgorithm.Uncompressed\n\n        else:")
+T('C11', 'twin-new-compression-stored-but-export-skips-cleartext', PGP, "            msg |= lit\n            msg._compression = compression\n", "            msg |= lit\n\n        msg._compression = compression\n",
+  more=[(PGP, "    def __bytearray__(self):\n        if self.is_compressed:\n            comp = CompressedData()", "    def __bytearray__(self):\n        if self.is_compressed and self.type != 'cleartext':\n            comp = CompressedData()")])
 
 # =============================================================================================== C09
 M('C09', 'enc-191', TY, "            if 192 > nl:\n                return Header.int_to_bytes(nl)", "            if 191 > nl:\n                return Header.int_to_bytes(nl)", 'C09.1')
